@@ -18,16 +18,19 @@ theorem wire_skip_ok (w : WireR) (buf : Bytes) (p n : Nat) (h : At (.wire w) buf
   have hpre : r'.Pre := by
     refine ⟨by rw [a2]; omega, fun _ => by rw [WireR.segAt_eq, a2]; exact a6, fun hh => by rw [a2] at hh; omega⟩
   refine ⟨.wire r', ?_, at_wire_step h a2 a3 (by rw [a4]; simp [WireR.absPos]; omega) hpre⟩
-  simp only [Rd.skip, WireR.skip, a1, Res.bind_ok, Res.pure_eq]
+  have hg : ¬ (n > w.absLength - w.absPos) := by
+    rw [WireR.absLength_eq]; omega
+  have hsk := skipLoop_eq_advance (w.wire.length + 1) { w with pos := w.pos + n } hlive'
+  simp only [Rd.skip, WireR.skip, if_neg hg, hsk, a1, Res.bind_ok, Res.pure_eq]
 
-theorem wire_skip_err (w : WireR) (buf : Bytes) (p n : Nat) (h : At (.wire w) buf p) (hlive : (Rd.wire w).Live)
+theorem wire_skip_err (w : WireR) (buf : Bytes) (p n : Nat) (h : At (.wire w) buf p) (_hlive : (Rd.wire w).Live)
     (hl : p + n > buf.length) : (Rd.wire w).skip n = .err := by
   obtain ⟨_, _, _, hb4⟩ := at_wire_buf h
+  obtain ⟨_, _, _, _, h5⟩ := at_wire_dest h
   have hn : ¬ (w.absPos + n ≤ w.wire.flatten.length) := fun hh => by have := (hb4 n).2 hh; omega
-  have hlive' : w.seg < w.wire.length := hlive
-  have := (advance_spec (w.wire.length + 1) { w with pos := w.pos + n } hlive' (by simp only []; omega)).2
-    (by simp only [accSz_length]; unfold WireR.absPos at hn; omega)
-  simp only [Rd.skip, WireR.skip, this, Res.bind_err]
+  have hg : n > w.absLength - w.absPos := by
+    rw [WireR.absLength_eq]; omega
+  simp only [Rd.skip, WireR.skip, if_pos hg, Res.bind_err]
 
 /-! ### Range -/
 
